@@ -910,9 +910,14 @@ fn oracle(ctx: &mut Ctx, idx: usize, case: &Case, out: &Out, rng: &mut Rng) {
                 if !(acc.is_finite() && acc >= 0.0) || (needs_access && acc <= 0.0) || (!needs_access && acc != 0.0) {
                     ctx.fail(idx, &format!("{}/access-share", site), format!("access share {}", acc));
                 }
-                // the recorded finding is the absorption of the floor by a HUGE access share (>= 1e5);
-                // a zero total at an ordinary access share is a violation of its own
-                if total == 0.0 && t > 0.0 && t <= acc * f64::EPSILON && acc >= 1.0e5 {
+                // the recorded finding is absorption by rounding alone: the charged total is positive but
+                // below one ulp of the access share, and it is either a genuine pre-floor value (a
+                // positive total below the floor is charged as is) or the floor of the specification,
+                // 1e-10, which this access share absorbs as well (share >= ~1e6). a zero total where the
+                // floor was due and 1e-10 would have survived is a violation of its own (e.g. a floor
+                // constant that became smaller)
+                let spec_floor_absorbed = acc + (1.0e-10 - acc) == 0.0;
+                if total == 0.0 && t > 0.0 && t <= acc * f64::EPSILON && (!floored_t || spec_floor_absorbed) {
                     // explained by rounding alone: the charged total is below one ulp of the access share
                     ctx.fail(idx, "edge_traversal/floor-absorbed", format!("{}: access {} + (total {} - access) = {}", site, acc, t, total));
                 } else if !(total.is_finite() && total > 0.0) {
